@@ -49,7 +49,7 @@ func (c01) NRuns(tier string) int {
 	if tier == "thorough" {
 		return 2000000
 	}
-	return 3000
+	return 12000
 }
 func (c01) Rule() string {
 	return "1..4 successive messages on channel 0 or a logical channel; a message is 1..5 packages (raw byte packages of any length, language and done packages) whose total length is m*(packetSize-8)+d with m in 0..3 and d in {-2..+2} half of the time (uniform otherwise), split so that package ends also fall on packet ends; header type 1..23; call split queue-all / last-by-SendPackage / single SendPackage; 15% of the messages are preceded by an abandoned one (a partial packet queued, then flushed with a cancelled context: must fail and leave nothing behind); the peer announces a new packet size (256, 257, 511, 512, 513, 1024, 4096, 32768, 65535 or uniform) between messages; the peer's wire record is parsed by an independent header codec; non-trivial = message longer than one packet body or a size change took effect; distinct = distinct (packet size, boundary class d, m, split, channel kind)"
